@@ -267,25 +267,41 @@ def _d_aliasing(chk, sites):
 
 
 # ------------------------------------------------------------------------------------------------ e
-def _e_invalidation(chk, sites):
+def _factory_reads(site):
+    """Attributes of self a memoised factory reads: self._x directly, or through a property returning self._x."""
+    mod, cls = site.mod, site.cls
+    out = set()
+    node = site.factory if not isinstance(site.factory, ast.Lambda) else site.factory.body
+    for a in ast.walk(node):
+        if isinstance(a, ast.Attribute) and isinstance(a.value, ast.Name) and a.value.id == "self" and isinstance(a.ctx, ast.Load):
+            out.add(a.attr)
+            hit = ri.class_member(mod, cls, a.attr)
+            if hit is not None and isinstance(hit[2], ast.FunctionDef) and "property" in ri.decorators(hit[2]):
+                for r in ast.walk(hit[2]):
+                    if isinstance(r, ast.Return) and isinstance(r.value, ast.Attribute) and isinstance(r.value.value, ast.Name) and r.value.value.id == "self":
+                        out.add(r.value.attr)
+    return out
+
+
+def _site_tag(site):
+    args = _key_args(site) or []
+    for a in args:
+        if isinstance(a, ast.Constant) and isinstance(a.value, str):
+            return a.value
+    return None
+
+
+def _e_invalidation(chk, sites, rule="C20.e", only_classes=None):
     by_cls = {}
     for s in sites:
         by_cls.setdefault((s.mod.name, s.cls.name), []).append(s)
     n = 0
     for (mname, cname), ss in by_cls.items():
+        if only_classes is not None and cname not in only_classes:
+            continue
         mod, cls = ss[0].mod, ss[0].cls
-        # attributes read by memoised factories: self._x directly, or through a property returning self._x
-        read_attrs = set()
-        for s in ss:
-            node = s.factory if not isinstance(s.factory, ast.Lambda) else s.factory.body
-            for a in ast.walk(node):
-                if isinstance(a, ast.Attribute) and isinstance(a.value, ast.Name) and a.value.id == "self" and isinstance(a.ctx, ast.Load):
-                    read_attrs.add(a.attr)
-                    hit = ri.class_member(mod, cls, a.attr)
-                    if hit is not None and isinstance(hit[2], ast.FunctionDef) and "property" in ri.decorators(hit[2]):
-                        for r in ast.walk(hit[2]):
-                            if isinstance(r, ast.Return) and isinstance(r.value, ast.Attribute) and isinstance(r.value.value, ast.Name) and r.value.value.id == "self":
-                                read_attrs.add(r.value.attr)
+        reads = {id(s): _factory_reads(s) for s in ss}
+        read_attrs = set().union(*reads.values()) if reads else set()
         for meth in [f for f in cls.body if isinstance(f, ast.FunctionDef)]:
             if meth.name in ("__init__", "__setstate__", "__getstate__"):
                 continue
@@ -312,11 +328,24 @@ def _e_invalidation(chk, sites):
                             continue
                         n += 1
                         blk = _enclosing_block(meth, st)
-                        resets = [c for b in blk for c in ast.walk(b) if isinstance(c, ast.Call) and isinstance(c.func, ast.Attribute) and c.func.attr in ("reset", "clear_caches")]
-                        chk.check(bool(resets), "C20.e", f"{mname}::{cname}.{meth.name}[self.{t.attr}]",
-                                  f"{meth.name}() assigns self.{t.attr}, which memoised factories of {cname} read, without invalidating the cache in the same block: values computed "
-                                  f"from the old {t.attr} stay cached", sample=f"{meth.name}: self.{t.attr} = ...; self.reset(...) alongside")
-    chk.floor("assignments of factory-read attributes examined", n, 2)
+                        resets = [(b, c) for b in blk for c in ast.walk(b) if isinstance(c, ast.Call) and isinstance(c.func, ast.Attribute) and c.func.attr in ("reset", "clear_caches")]
+                        full = [c for b, c in resets if not c.args and not c.keywords]
+                        construct = f"{mname}::{cname}.{meth.name}[self.{t.attr}]"
+                        if full or not resets:
+                            chk.check(bool(full), rule, construct,
+                                      f"{meth.name}() assigns self.{t.attr}, which memoised factories of {cname} read, without invalidating the cache in the same block: values computed "
+                                      f"from the old {t.attr} stay cached", sample=f"{meth.name}: self.{t.attr} = ...; self.reset(...) alongside")
+                            continue
+                        # only keyed (partial) invalidation: every cached quantity whose factory reads the attribute must be among the dropped tags
+                        tags = {k.value for b, c in resets for k in ast.walk(b) if isinstance(k, ast.Constant) and isinstance(k.value, str)}
+                        needed = {(_site_tag(s) or s.method.name) for s in ss if t.attr in reads[id(s)]}
+                        missing = sorted(needed - tags)
+                        chk.check(not missing, rule, construct,
+                                  f"{meth.name}() assigns self.{t.attr} and drops only the cache entries tagged {sorted(tags)}; entries tagged {missing} are also computed from "
+                                  f"{t.attr} and stay cached with the old value", sample=f"{meth.name}: partial reset covers {sorted(needed)}")
+    if only_classes is None:
+        chk.floor("assignments of factory-read attributes examined", n, 2)
+    return n
 
 
 def _under_none_guard(fn, stmt, attr):
